@@ -31,7 +31,7 @@ import RosuModel.Props.C04DecodedObjects
 import RosuModel.Props.C04DecodedObjectsToy
 set_option linter.unusedSectionVars false
 namespace Rosu.C04
-open Rosu Scalar RtObjects SliderRt DecodedObj EncodeLines Encode DecodedPath C14 C14.HoSpec DecodedSliders
+open Rosu Scalar RtObjects SliderRt DecodedObj EncodeLines Encode DecodedPath C14 C14.HoSpec DecodedSliders DecodedInv
 
 section
 variable {F P : Type} [Scalar F] [Scalar P] [Cvt P F]
@@ -371,5 +371,241 @@ theorem encoded_file_accepted_decoded_f17_partial (ML : MapLaws F P RF RP) (C : 
     (fun h hh => objResidual_of_f17 PL bs st m h1 h2 h hh (hres h hh)) t h
 
 end Decoded
+
+/-! ### the full statements (no exception) are FALSE of the model -/
+
+section Statements
+variable (F P : Type) [Scalar F] [Scalar P] [Cvt P F] [Trig F] [Trig P]
+
+/-- the full statement at the decoder state: every pushed slider has the shape `PathShapeOk` — FALSE (F17). -/
+def decoded_state_path_shape_statement : Prop :=
+  ∀ (bs : List UInt8) (st : BeatmapState F P), decodeBytes beatmapDecoder bs = .ok st →
+    SliderInv (fun s => PathShapeOk s.path.controlPoints) st.hitObjects.core.hitObjects
+
+/-- the full statement for finished maps — FALSE whenever the witness file finishes (`f17_map_needed`). -/
+def decoded_path_shape_statement : Prop :=
+  ∀ (bs : List UInt8) (st : BeatmapState F P) (m : Beatmap F P), decodeBytes beatmapDecoder bs = .ok st →
+    st.finish = .ok m → ∀ h ∈ m.hitObjects, ∀ s, h.kind = .slider s → PathShapeOk s.path.controlPoints
+
+end Statements
+
+section Transfer
+variable {F P : Type} [Scalar F] [Scalar P] [Cvt P F] [Trig F] [Trig P]
+
+omit [Scalar F] [Scalar P] [Cvt P F] [Trig F] [Trig P] in
+theorem pointwise_mem_left {α β : Type} {R : α → β → Prop} {as : List α} {bs : List β} (h : C15.Pointwise R as bs) :
+    ∀ a ∈ as, ∃ b ∈ bs, R a b := by
+  induction h with
+  | nil => intro a ha; cases ha
+  | cons hab _ ih =>
+    intro a ha
+    rcases List.mem_cons.mp ha with rfl | ha
+    · exact ⟨_, List.mem_cons_self, hab⟩
+    · obtain ⟨b, hb, hr⟩ := ih a ha
+      exact ⟨b, List.mem_cons_of_mem _ hb, hr⟩
+
+/-- every parsed slider reaches the finished map with its `SliderPath` data (the converse of
+`DecodedSliders.decoded_slider_origin`). -/
+theorem finished_keeps_paths (st : BeatmapState F P) (m : Beatmap F P) (hf : st.finish = .ok m) :
+    ∀ h0 ∈ st.hitObjects.core.hitObjects, ∀ s0, h0.kind = .slider s0 →
+      ∃ h ∈ m.hitObjects, ∃ s, h.kind = .slider s ∧ s.path = s0.path := by
+  intro h0 hh0 s0 hk0
+  unfold BeatmapState.finish at hf
+  cases hho : st.hitObjects.finish with
+  | error e => simp [hho, bind, Except.bind] at hf
+  | ok ho =>
+    simp only [hho, bind, Except.bind, pure, Except.pure] at hf
+    injection hf with hf
+    subst hf
+    obtain ⟨hp, hpw⟩ := C15.finalize_perm st.hitObjects ho hho
+    obtain ⟨b, hb, _, hsim, _⟩ := pointwise_mem_left hpw h0 (hp.mem_iff.mpr hh0)
+    refine ⟨b, hb, ?_⟩
+    rw [hk0] at hsim
+    cases hbk : b.kind with
+    | slider s =>
+      rw [hbk] at hsim
+      simp only [C15.KindSim] at hsim
+      exact ⟨s, rfl, by rw [hsim.1]⟩
+    | circle c => rw [hbk] at hsim; exact hsim.elim
+    | spinner c => rw [hbk] at hsim; exact hsim.elim
+    | hold c => rw [hbk] at hsim; exact hsim.elim
+
+end Transfer
+
+/-! ### the toy codec: the laws hold, the theorems apply, the exception is needed -/
+
+theorem alpha_toNat (c : Char) (h : (('a' ≤ c && c ≤ 'z') || ('A' ≤ c && c ≤ 'Z')) = true) :
+    (97 ≤ c.toNat ∧ c.toNat ≤ 122) ∨ (65 ≤ c.toNat ∧ c.toNat ≤ 90) := by
+  simp only [Bool.or_eq_true, Bool.and_eq_true, decide_eq_true_eq] at h
+  simp only [Char.le_def, UInt32.le_iff_toNat_le] at h
+  exact h
+
+/-- the integer reader rejects a text that starts with an ASCII letter, blanks trimmed or not. -/
+theorem i32FromStr_letter (s : Str) (hs : isLetterPiece s = true) : i32FromStr (trim s) = none := by
+  cases s with
+  | nil => simp [isLetterPiece, firstIsAsciiAlpha] at hs
+  | cons c cs =>
+    have ha : (('a' ≤ c && c ≤ 'z') || ('A' ≤ c && c ≤ 'Z')) = true := by
+      simp only [isLetterPiece, firstIsAsciiAlpha] at hs
+      split at hs
+      · rename_i h; simpa using h
+      · cases hs
+    have hn := alpha_toNat c ha
+    have hws : isWs c = false := by
+      simp only [isWs, Bool.or_eq_false_iff, Bool.and_eq_false_iff, decide_eq_false_iff_not, beq_eq_false_iff_ne]
+      omega
+    have ht : trim (c :: cs) = c :: trimEnd cs := by
+      unfold trim
+      rw [trimStart_of_head hws, trimEnd_cons_of_not_ws cs hws]
+    have h1 : (c == '-') = false := by
+      simp only [beq_eq_false_iff_ne]; apply toNat_ne; have : '-'.toNat = 45 := rfl; omega
+    have h2 : (c == '+') = false := by
+      simp only [beq_eq_false_iff_ne]; apply toNat_ne; have : '+'.toNat = 43 := rfl; omega
+    have h3 : digitVal c = none := by
+      unfold digitVal
+      have h0 : '0'.toNat = 48 := rfl
+      have h9 : '9'.toNat = 57 := rfl
+      rw [h0, h9, if_neg (by omega)]
+    rw [ht]
+    simp only [i32FromStr, h1, h2, Bool.false_eq_true, if_false, parseDigits, digitsAcc, h3]
+
+theorem ZC.posEq_iff (p q : Pos ZC) : Pos.eq p q = true ↔ p = q := by
+  obtain ⟨⟨a⟩, ⟨b⟩⟩ := p
+  obtain ⟨⟨c⟩, ⟨d⟩⟩ := q
+  show (decide (a = c) && decide (b = d)) = true ↔ _
+  simp
+
+/-- **the path laws hold of the toy codec.** -/
+theorem ZC.pathLaws : PathLaws ZC ZC where
+  eq := fun start _ _ =>
+    { sound := fun p q _ _ h => (ZC.posEq_iff p q).mp h
+      refl := fun p _ => (ZC.posEq_iff p p).mpr rfl
+      dupLinear := fun p c _ _ => by
+        unfold isLinear
+        show decide ((((p.y.v - p.y.v) * (c.x.v - p.x.v) - (p.x.v - p.x.v) * (c.y.v - p.y.v)).natAbs : Int) < 1) = true
+        simp }
+  letter := fun s hs => by
+    have hp : (Scalar.parse (trim s) : Option ZC) = none := by
+      show (i32FromStr (trim s)).map ZC.mk = none
+      rw [i32FromStr_letter s hs]; rfl
+    unfold number
+    rw [hp]
+
+set_option maxRecDepth 100000
+
+/-- finding F17, index-0 variant: a Catmull path that begins with the same position three times. -/
+def f17CatmullLine : Str := str "0,0,100,2,0,C|0:0|0:0|3:3,1,10"
+/-- finding F17: two explicit segments of the same type, the second one starting on the first one's last point. -/
+def f17TypedLine : Str := str "0,0,100,2,0,B|1:1|B|1:1|3:3,1,10"
+/-- consecutive Catmull segments. -/
+def catmullRunLine : Str := str "0,0,100,2,0,C|1:1|C|2:2|3:3,1,10"
+
+/-- the control points of the sliders a line pushes from the initial state. -/
+def pushedPaths (l : Str) : List (List (PathControlPoint ZC)) :=
+  (parseHitObjectLine GameMode.osu ({} : HOCore ZC ZC) l).1.hitObjects.filterMap fun o =>
+    match o.kind with
+    | .slider s => some s.path.controlPoints
+    | _ => none
+
+theorem f17_paths :
+    pushedPaths f17CatmullLine = [[zc 0 0 (some PathType.catmull), zc 0 0, zc 3 3]] ∧
+    pushedPaths f17TypedLine = [[zc 0 0 (some PathType.bezier), zc 1 1, zc 1 1 (some PathType.bezier), zc 3 3]] ∧
+    pushedPaths catmullRunLine = [[zc 0 0 (some PathType.catmull), zc 1 1, zc 2 2 (some PathType.catmull), zc 3 3]] := by
+  refine ⟨?_, ?_, ?_⟩ <;> with_unfolding_all rfl
+
+theorem f17_needed : ∀ l ∈ [f17CatmullLine, f17TypedLine, catmullRunLine],
+    (parseHitObjectLine GameMode.osu ({} : HOCore ZC ZC) l).2 = true ∧
+    ∃ o s, (parseHitObjectLine GameMode.osu ({} : HOCore ZC ZC) l).1.hitObjects = [] ++ [o] ∧ o.kind = .slider s ∧
+      ¬ PathShapeOk s.path.controlPoints ∧ ¬ F17Free s.path.controlPoints := by
+  have key : ∀ l ∈ [f17CatmullLine, f17TypedLine, catmullRunLine],
+      (parseHitObjectLine GameMode.osu ({} : HOCore ZC ZC) l).2 = true ∧
+      (match (parseHitObjectLine GameMode.osu ({} : HOCore ZC ZC) l).1.hitObjects with
+       | [o] => (match o.kind with
+          | .slider s => decide (¬ PathShapeOk s.path.controlPoints) && decide (¬ F17Free s.path.controlPoints)
+          | _ => false)
+       | _ => false) = true := by
+    decide +kernel
+  intro l hl
+  obtain ⟨h1, h2⟩ := key l hl
+  refine ⟨h1, ?_⟩
+  split at h2
+  · rename_i o ho
+    split at h2
+    · rename_i s hs
+      simp only [Bool.and_eq_true, decide_eq_true_eq] at h2
+      exact ⟨o, s, by rw [ho]; rfl, hs, h2.1, h2.2⟩
+    · cases h2
+  · cases h2
+
+
+/-- the hypotheses of `decoded_path_shape` are satisfiable: a three-segment path with a carried repeat. -/
+def goodPathLine : Str := str "10,20,100,2,0,B|11:21|12:22|12:22|L|13:23|P|14:24|19:20,1,10"
+
+example : (parseHitObjectLine GameMode.osu ({} : HOCore ZC ZC) goodPathLine).2 = true ∧
+    (pushedPaths goodPathLine).all (fun cps => decide (F17Free cps) && decide (PathShapeOk cps) && decide (3 < cps.length)) = true := by
+  decide +kernel
+
+example (o : HitObject ZC ZC) (s : HitObjectSlider ZC ZC)
+    (hpush : (parseHitObjectLine GameMode.osu ({} : HOCore ZC ZC) goodPathLine).1.hitObjects = [] ++ [o])
+    (hk : o.kind = .slider s) : PathShapeOk s.path.controlPoints ↔ F17Free s.path.controlPoints :=
+  decoded_path_shape ZC.pathLaws GameMode.osu {} goodPathLine rfl o hpush s hk
+
+/-- the empty-buffer hypothesis of `decoded_path_shape` is needed: from a state with a left-over control point (not
+reachable by the decoder) the stored list begins with it. -/
+example : ((parseHitObjectLine GameMode.osu ({ curvePoints := [zc 7 7] } : HOCore ZC ZC) goodPathLine).1.hitObjects.all fun o =>
+    match o.kind with
+    | .slider s => decide (F17Free s.path.controlPoints) && decide (¬ PathShapeOk s.path.controlPoints)
+    | _ => false) = true := by
+  decide +kernel
+
+/-! a decoded file -/
+
+def f17Lines : List Str := [str "osu file format v14", str "", str "[HitObjects]", f17CatmullLine]
+def f17State : BeatmapState ZC ZC := frame beatmapDecoder f17Lines
+
+theorem f17_decodes :
+    decodeBytes (beatmapDecoder : LineDecoder (BeatmapState ZC ZC)) (utf8Encode (unlines f17Lines)) = .ok f17State := by
+  rw [RtFile.decodeBytes_utf8_text _ _ (by decide), lines_of_unlines _ (by decide)]
+  rfl
+
+theorem f17State_slider : ∃ h ∈ f17State.hitObjects.core.hitObjects, ∃ s, h.kind = .slider s ∧
+    ¬ PathShapeOk s.path.controlPoints := by
+  have key : f17State.hitObjects.core.hitObjects.any (fun o =>
+      match o.kind with
+      | .slider s => decide (¬ PathShapeOk s.path.controlPoints)
+      | _ => false) = true := by
+    decide +kernel
+  obtain ⟨h, hh, hb⟩ := List.any_eq_true.mp key
+  split at hb
+  · rename_i s hs
+    exact ⟨h, hh, s, hs, of_decide_eq_true hb⟩
+  · cases hb
+
+/-- **f17_file_needed** — the statement without the exception is FALSE of the model: the file `[HitObjects]` +
+`0,0,100,2,0,C|0:0|0:0|3:3,1,10` decodes to a state whose slider violates `PathShapeOk` (finding F17). -/
+theorem f17_file_needed : ¬ decoded_state_path_shape_statement ZC ZC := by
+  intro hst
+  obtain ⟨h, hh, s, hk, hn⟩ := f17State_slider
+  exact hn (hst _ _ f17_decodes h hh s hk)
+
+/-- … and whenever the finaliser succeeds on it, the finished map has that slider (the finaliser — `Curve::new` — does
+not reduce in the kernel, so success is a hypothesis here). -/
+theorem f17_map_needed (m : Beatmap ZC ZC) (hf : f17State.finish = .ok m) :
+    ∃ h ∈ m.hitObjects, ∃ s, h.kind = .slider s ∧ ¬ PathShapeOk s.path.controlPoints := by
+  obtain ⟨h0, hh0, s0, hk0, hn⟩ := f17State_slider
+  obtain ⟨h, hh, s, hk, hp⟩ := finished_keeps_paths f17State m hf h0 hh0 s0 hk0
+  exact ⟨h, hh, s, hk, by rw [hp]; exact hn⟩
+
+theorem f17_statement_false (hfin : ∃ m, f17State.finish = .ok m) : ¬ decoded_path_shape_statement ZC ZC := by
+  intro hst
+  obtain ⟨m, hf⟩ := hfin
+  obtain ⟨h, hh, s, hk, hn⟩ := f17_map_needed m hf
+  exact hn (hst _ _ m f17_decodes hf h hh s hk)
+
+/-- all law bundles of the decoded-object theorems hold of the toy codec. -/
+theorem decoded_path_hypotheses_satisfiable :
+    CodecLaws ZC ZC.Rep ∧ SliderRt.CoordLaws ZC ZC ZC.Rep ∧ ObjLaws ZC ZC ZC.Rep ZC.Rep ∧ DurLaws ZC ZC.Rep ∧
+      CtrlLaws ZC ZC ZC.Rep ∧ PathLaws ZC ZC :=
+  ⟨ZC.laws, SliderRt.ZC.coordLaws, ZC.objLaws, ZC.durLaws, ZC.ctrlLaws, ZC.pathLaws⟩
 
 end Rosu.C04
